@@ -1,0 +1,743 @@
+// Verification seam for deterministic simulation of `par.rs`.
+//
+// This module is compiled ONLY with `RUSTFLAGS="--cfg flacenc_verif"` (never by
+// a normal build; the `shuttle` crate it refers to is supplied by the
+// verification harness, not by this crate's manifest).  Under that flag
+// `par.rs` takes `Arc`, `Mutex`, `thread` and the MPMC channel from here, so
+// that every synchronisation point becomes a scheduling decision of a
+// simulator, and `reusable!` storage becomes per-simulated-thread.
+//
+// Nothing here decides a verification verdict; it provides
+//  * the scheduling seam (shuttle `Mutex`/`Condvar`/`thread`),
+//  * a bounded/unbounded MPMC channel model with crossbeam-channel's
+//    blocking and disconnection rules,
+//  * a per-execution recorder (event log, live-thread table, coverage).
+
+#![allow(missing_docs, clippy::all, clippy::pedantic, clippy::nursery, clippy::restriction)]
+
+pub use std::sync::Arc;
+
+pub use shuttle::sync::Mutex;
+pub use shuttle::sync::MutexGuard;
+
+use std::cell::Cell;
+use std::cell::RefCell;
+use std::collections::BTreeMap;
+use std::collections::BTreeSet;
+
+/// State of one simulated thread as seen from the seam.
+#[derive(Clone, Debug, PartialEq, Eq)]
+pub enum ThreadState {
+    Running,
+    BlockedSend(usize),
+    BlockedRecv(usize),
+    Finished,
+}
+
+/// One recorded seam event: (thread, opcode, object, value).
+pub type Event = (u32, u8, u32, u32);
+
+pub mod op {
+    pub const SPAWN: u8 = 1;
+    pub const FINISH: u8 = 2;
+    pub const SEND: u8 = 3;
+    pub const SEND_BLOCK: u8 = 4;
+    pub const RECV: u8 = 5;
+    pub const RECV_BLOCK: u8 = 6;
+    pub const SEND_DISC: u8 = 7;
+    pub const RECV_DISC: u8 = 8;
+    pub const CHAN_NEW: u8 = 9;
+    pub const PROBE: u8 = 10;
+    pub const TRY_SEND_FULL: u8 = 11;
+    pub const TRY_RECV_EMPTY: u8 = 12;
+    pub const JOIN: u8 = 13;
+}
+
+/// Tunables set by the simulator before an execution.
+#[derive(Clone, Debug, Default)]
+pub struct Knobs {
+    /// When `Some(c)`, a channel requested with capacity 16 (the hashing
+    /// queue of `ParContext`) is created with capacity `c` instead.
+    pub hashq_cap: Option<usize>,
+    /// Record the full event log (otherwise only its hash and counters).
+    pub keep_events: bool,
+}
+
+/// Everything recorded during one execution.
+#[derive(Clone, Debug, Default)]
+pub struct ExecRecord {
+    pub events: Vec<Event>,
+    pub event_hash: u64,
+    pub n_events: u64,
+    pub threads: BTreeMap<usize, ThreadState>,
+    pub spawned: usize,
+    pub finished: usize,
+    pub chan_caps: Vec<Option<usize>>,
+    pub chan_lens: Vec<usize>,
+    pub chan_max_len: Vec<usize>,
+    pub blocking_sends: Vec<u64>,
+    pub blocking_recvs: Vec<u64>,
+    pub probes: Vec<(&'static str, u64)>,
+    pub states: BTreeSet<u64>,
+    pub transitions: BTreeSet<(u64, u64)>,
+    pub last_state: u64,
+    pub unsupported: Option<String>,
+}
+
+std::thread_local! {
+    static KNOBS: RefCell<Knobs> = RefCell::new(Knobs::default());
+    static EXEC: RefCell<ExecRecord> = RefCell::new(ExecRecord::default());
+}
+
+shuttle::thread_local! {
+    static MY_TID: Cell<usize> = Cell::new(0);
+}
+
+/// Starts a fresh record (call at the beginning of each execution, from the
+/// simulator, *outside* or at the very start of the shuttle execution).
+pub fn begin_execution(knobs: Knobs) {
+    KNOBS.with(|k| *k.borrow_mut() = knobs);
+    EXEC.with(|e| {
+        let mut r = ExecRecord::default();
+        r.threads.insert(0, ThreadState::Running);
+        *e.borrow_mut() = r;
+    });
+}
+
+/// Takes the record of the execution that just ended.
+pub fn take_record() -> ExecRecord {
+    EXEC.with(|e| std::mem::take(&mut *e.borrow_mut()))
+}
+
+/// Clones the record (used from a panic hook).
+pub fn snapshot_record() -> Option<ExecRecord> {
+    EXEC.with(|e| e.try_borrow().ok().map(|r| r.clone()))
+}
+
+/// Number of threads started through this seam that have not finished.
+pub fn live_threads() -> usize {
+    EXEC.with(|e| {
+        let r = e.borrow();
+        r.spawned - r.finished
+    })
+}
+
+/// `(tid, state)` of every thread started through this seam that is not finished.
+pub fn live_thread_states() -> Vec<(usize, ThreadState)> {
+    EXEC.with(|e| {
+        e.borrow()
+            .threads
+            .iter()
+            .filter(|(t, s)| **t != 0 && **s != ThreadState::Finished)
+            .map(|(t, s)| (*t, s.clone()))
+            .collect()
+    })
+}
+
+fn my_tid() -> usize {
+    MY_TID.with(Cell::get)
+}
+
+#[inline]
+fn mix(h: u64, v: u64) -> u64 {
+    let mut z = (h ^ v).wrapping_add(0x9E37_79B9_7F4A_7C15);
+    z = (z ^ (z >> 30)).wrapping_mul(0xBF58_476D_1CE4_E5B9);
+    z = (z ^ (z >> 27)).wrapping_mul(0x94D0_49BB_1331_11EB);
+    z ^ (z >> 31)
+}
+
+fn record(opcode: u8, obj: usize, val: usize) {
+    let tid = my_tid();
+    let keep = KNOBS.with(|k| k.borrow().keep_events);
+    EXEC.with(|e| {
+        let mut r = e.borrow_mut();
+        let ev: Event = (tid as u32, opcode, obj as u32, val as u32);
+        r.n_events += 1;
+        r.event_hash = mix(
+            r.event_hash,
+            (u64::from(ev.0) << 48) ^ (u64::from(ev.1) << 40) ^ (u64::from(ev.2) << 20) ^ u64::from(ev.3),
+        );
+        if keep || r.events.len() < 4096 {
+            r.events.push(ev);
+        }
+        // abstract protocol state: channel lengths (bucketed above 3),
+        // blocked senders / receivers, live threads.
+        let mut s = 0u64;
+        for l in &r.chan_lens {
+            s = mix(s, (*l).min(4) as u64);
+        }
+        let mut bs = 0u64;
+        let mut br = 0u64;
+        for st in r.threads.values() {
+            match st {
+                ThreadState::BlockedSend(c) => bs += 1 + ((*c as u64) << 8),
+                ThreadState::BlockedRecv(c) => br += 1 + ((*c as u64) << 8),
+                ThreadState::Running | ThreadState::Finished => {}
+            }
+        }
+        s = mix(s, bs);
+        s = mix(s, br);
+        s = mix(s, (r.spawned - r.finished) as u64);
+        let prev = r.last_state;
+        if prev != s {
+            r.states.insert(s);
+            r.transitions.insert((prev, s));
+            r.last_state = s;
+        }
+    });
+}
+
+fn set_state(st: ThreadState) {
+    let tid = my_tid();
+    EXEC.with(|e| {
+        e.borrow_mut().threads.insert(tid, st);
+    });
+}
+
+/// Labels an event for diagnosis / coverage. Never used for a verdict.
+pub fn probe(tag: &'static str, value: u64) {
+    EXEC.with(|e| {
+        let mut r = e.borrow_mut();
+        if r.probes.len() < 65536 {
+            r.probes.push((tag, value));
+        }
+    });
+    record(op::PROBE, 0, value as usize);
+}
+
+/// Marks the execution as having used something the model does not support.
+fn unsupported(what: &str) -> ! {
+    EXEC.with(|e| e.borrow_mut().unsupported = Some(what.to_owned()));
+    panic!("VERIF-UNSUPPORTED: {what}");
+}
+
+pub mod thread {
+    //! `std::thread` replacement (shuttle) with a live-thread table.
+    use super::op;
+    use super::record;
+    use super::ThreadState;
+    use super::EXEC;
+    use super::MY_TID;
+
+    pub use shuttle::thread::current;
+    pub use shuttle::thread::sleep;
+    pub use shuttle::thread::yield_now;
+    pub use shuttle::thread::Thread;
+    pub use shuttle::thread::ThreadId;
+
+    struct LiveGuard(usize);
+    impl Drop for LiveGuard {
+        fn drop(&mut self) {
+            let tid = self.0;
+            EXEC.with(|e| {
+                if let Ok(mut r) = e.try_borrow_mut() {
+                    r.finished += 1;
+                    r.threads.insert(tid, ThreadState::Finished);
+                }
+            });
+            record(op::FINISH, tid, 0);
+        }
+    }
+
+    /// Join handle that records the join.
+    #[derive(Debug)]
+    pub struct JoinHandle<T> {
+        inner: shuttle::thread::JoinHandle<T>,
+        tid: usize,
+    }
+
+    impl<T> JoinHandle<T> {
+        pub fn join(self) -> std::thread::Result<T> {
+            let r = self.inner.join();
+            record(op::JOIN, self.tid, usize::from(r.is_err()));
+            r
+        }
+        pub fn thread(&self) -> &Thread {
+            self.inner.thread()
+        }
+    }
+
+    fn register() -> usize {
+        let tid = EXEC.with(|e| {
+            let mut r = e.borrow_mut();
+            r.spawned += 1;
+            let tid = r.spawned;
+            r.threads.insert(tid, ThreadState::Running);
+            tid
+        });
+        record(op::SPAWN, tid, 0);
+        tid
+    }
+
+    pub fn spawn<F, T>(f: F) -> JoinHandle<T>
+    where
+        F: FnOnce() -> T + Send + 'static,
+        T: Send + 'static,
+    {
+        let tid = register();
+        let inner = shuttle::thread::spawn(move || {
+            MY_TID.with(|c| c.set(tid));
+            let _g = LiveGuard(tid);
+            f()
+        });
+        JoinHandle { inner, tid }
+    }
+
+    /// `std::thread::Builder` replacement.
+    #[derive(Debug, Default)]
+    pub struct Builder {
+        inner: shuttle::thread::Builder,
+    }
+
+    impl Builder {
+        pub fn new() -> Self {
+            Self {
+                inner: shuttle::thread::Builder::new(),
+            }
+        }
+        #[must_use]
+        pub fn name(self, name: String) -> Self {
+            Self {
+                inner: self.inner.name(name),
+            }
+        }
+        #[must_use]
+        pub fn stack_size(self, size: usize) -> Self {
+            Self {
+                inner: self.inner.stack_size(size),
+            }
+        }
+        pub fn spawn<F, T>(self, f: F) -> std::io::Result<JoinHandle<T>>
+        where
+            F: FnOnce() -> T + Send + 'static,
+            T: Send + 'static,
+        {
+            let tid = register();
+            let inner = self.inner.spawn(move || {
+                MY_TID.with(|c| c.set(tid));
+                let _g = LiveGuard(tid);
+                f()
+            })?;
+            Ok(JoinHandle { inner, tid })
+        }
+    }
+}
+
+pub mod chan {
+    //! Model of `crossbeam_channel` bounded / unbounded MPMC channels on
+    //! shuttle `Mutex` + `Condvar`.  All wake-ups are `notify_all`, so the
+    //! scheduler decides which waiter wins.
+    use super::op;
+    use super::record;
+    use super::set_state;
+    use super::ThreadState;
+    use super::EXEC;
+    use super::KNOBS;
+    use std::collections::VecDeque;
+    use std::fmt;
+    use std::sync::Arc;
+
+    use shuttle::sync::Condvar;
+    use shuttle::sync::Mutex;
+
+    struct Inner<T> {
+        q: VecDeque<T>,
+        cap: Option<usize>,
+        senders: usize,
+        receivers: usize,
+    }
+
+    struct Shared<T> {
+        id: usize,
+        m: Mutex<Inner<T>>,
+        cv: Condvar,
+    }
+
+    pub struct Sender<T>(Arc<Shared<T>>);
+    pub struct Receiver<T>(Arc<Shared<T>>);
+
+    #[derive(PartialEq, Eq, Clone, Copy)]
+    pub struct SendError<T>(pub T);
+    #[derive(PartialEq, Eq, Clone, Copy, Debug)]
+    pub struct RecvError;
+    #[derive(PartialEq, Eq, Clone, Copy)]
+    pub enum TrySendError<T> {
+        Full(T),
+        Disconnected(T),
+    }
+    #[derive(PartialEq, Eq, Clone, Copy, Debug)]
+    pub enum TryRecvError {
+        Empty,
+        Disconnected,
+    }
+
+    impl<T> fmt::Debug for SendError<T> {
+        fn fmt(&self, f: &mut fmt::Formatter<'_>) -> fmt::Result {
+            "SendError(..)".fmt(f)
+        }
+    }
+    impl<T> fmt::Display for SendError<T> {
+        fn fmt(&self, f: &mut fmt::Formatter<'_>) -> fmt::Result {
+            "sending on a disconnected channel".fmt(f)
+        }
+    }
+    impl<T> std::error::Error for SendError<T> {}
+    impl<T> SendError<T> {
+        pub fn into_inner(self) -> T {
+            self.0
+        }
+    }
+    impl fmt::Display for RecvError {
+        fn fmt(&self, f: &mut fmt::Formatter<'_>) -> fmt::Result {
+            "receiving on an empty and disconnected channel".fmt(f)
+        }
+    }
+    impl std::error::Error for RecvError {}
+    impl<T> fmt::Debug for TrySendError<T> {
+        fn fmt(&self, f: &mut fmt::Formatter<'_>) -> fmt::Result {
+            match self {
+                Self::Full(..) => "Full(..)".fmt(f),
+                Self::Disconnected(..) => "Disconnected(..)".fmt(f),
+            }
+        }
+    }
+    impl<T> fmt::Display for TrySendError<T> {
+        fn fmt(&self, f: &mut fmt::Formatter<'_>) -> fmt::Result {
+            match self {
+                Self::Full(..) => "sending on a full channel".fmt(f),
+                Self::Disconnected(..) => "sending on a disconnected channel".fmt(f),
+            }
+        }
+    }
+    impl<T> std::error::Error for TrySendError<T> {}
+    impl<T> TrySendError<T> {
+        pub fn into_inner(self) -> T {
+            match self {
+                Self::Full(v) | Self::Disconnected(v) => v,
+            }
+        }
+        pub fn is_full(&self) -> bool {
+            matches!(self, Self::Full(..))
+        }
+        pub fn is_disconnected(&self) -> bool {
+            matches!(self, Self::Disconnected(..))
+        }
+    }
+    impl fmt::Display for TryRecvError {
+        fn fmt(&self, f: &mut fmt::Formatter<'_>) -> fmt::Result {
+            match self {
+                Self::Empty => "receiving on an empty channel".fmt(f),
+                Self::Disconnected => "receiving on an empty and disconnected channel".fmt(f),
+            }
+        }
+    }
+    impl std::error::Error for TryRecvError {}
+
+    fn new_chan<T>(cap: Option<usize>) -> (Sender<T>, Receiver<T>) {
+        let cap = match cap {
+            Some(0) => super::unsupported("zero-capacity (rendezvous) channel"),
+            Some(16) => Some(KNOBS.with(|k| k.borrow().hashq_cap).unwrap_or(16)),
+            other => other,
+        };
+        let id = EXEC.with(|e| {
+            let mut r = e.borrow_mut();
+            r.chan_caps.push(cap);
+            r.chan_lens.push(0);
+            r.chan_max_len.push(0);
+            r.blocking_sends.push(0);
+            r.blocking_recvs.push(0);
+            r.chan_caps.len() - 1
+        });
+        record(op::CHAN_NEW, id, cap.unwrap_or(usize::MAX & 0xFFFF));
+        let shared = Arc::new(Shared {
+            id,
+            m: Mutex::new(Inner {
+                q: VecDeque::new(),
+                cap,
+                senders: 1,
+                receivers: 1,
+            }),
+            cv: Condvar::new(),
+        });
+        (Sender(Arc::clone(&shared)), Receiver(shared))
+    }
+
+    pub fn bounded<T>(cap: usize) -> (Sender<T>, Receiver<T>) {
+        new_chan(Some(cap))
+    }
+
+    pub fn unbounded<T>() -> (Sender<T>, Receiver<T>) {
+        new_chan(None)
+    }
+
+    fn note_len(id: usize, len: usize) {
+        EXEC.with(|e| {
+            let mut r = e.borrow_mut();
+            if id < r.chan_lens.len() {
+                r.chan_lens[id] = len;
+                if r.chan_max_len[id] < len {
+                    r.chan_max_len[id] = len;
+                }
+            }
+        });
+    }
+
+    fn note_block(id: usize, is_send: bool) {
+        EXEC.with(|e| {
+            let mut r = e.borrow_mut();
+            if id < r.chan_lens.len() {
+                if is_send {
+                    r.blocking_sends[id] += 1;
+                } else {
+                    r.blocking_recvs[id] += 1;
+                }
+            }
+        });
+    }
+
+    impl<T> Shared<T> {
+        fn len(&self) -> usize {
+            self.m.lock().unwrap().q.len()
+        }
+        fn capacity(&self) -> Option<usize> {
+            self.m.lock().unwrap().cap
+        }
+        fn is_full(&self) -> bool {
+            let g = self.m.lock().unwrap();
+            g.cap.map_or(false, |c| g.q.len() >= c)
+        }
+    }
+
+    impl<T> Sender<T> {
+        pub fn send(&self, msg: T) -> Result<(), SendError<T>> {
+            let id = self.0.id;
+            let mut g = self.0.m.lock().unwrap();
+            let mut blocked = false;
+            loop {
+                if g.receivers == 0 {
+                    drop(g);
+                    if blocked {
+                        set_state(ThreadState::Running);
+                    }
+                    record(op::SEND_DISC, id, 0);
+                    return Err(SendError(msg));
+                }
+                if g.cap.map_or(true, |c| g.q.len() < c) {
+                    g.q.push_back(msg);
+                    let len = g.q.len();
+                    note_len(id, len);
+                    if blocked {
+                        set_state(ThreadState::Running);
+                    }
+                    record(op::SEND, id, len);
+                    self.0.cv.notify_all();
+                    return Ok(());
+                }
+                if !blocked {
+                    blocked = true;
+                    note_block(id, true);
+                    set_state(ThreadState::BlockedSend(id));
+                    record(op::SEND_BLOCK, id, g.q.len());
+                }
+                g = self.0.cv.wait(g).unwrap();
+            }
+        }
+
+        pub fn try_send(&self, msg: T) -> Result<(), TrySendError<T>> {
+            let id = self.0.id;
+            let mut g = self.0.m.lock().unwrap();
+            if g.receivers == 0 {
+                return Err(TrySendError::Disconnected(msg));
+            }
+            if g.cap.map_or(true, |c| g.q.len() < c) {
+                g.q.push_back(msg);
+                let len = g.q.len();
+                note_len(id, len);
+                record(op::SEND, id, len);
+                self.0.cv.notify_all();
+                Ok(())
+            } else {
+                record(op::TRY_SEND_FULL, id, g.q.len());
+                Err(TrySendError::Full(msg))
+            }
+        }
+
+        pub fn len(&self) -> usize {
+            self.0.len()
+        }
+        pub fn is_empty(&self) -> bool {
+            self.0.len() == 0
+        }
+        pub fn is_full(&self) -> bool {
+            self.0.is_full()
+        }
+        pub fn capacity(&self) -> Option<usize> {
+            self.0.capacity()
+        }
+        pub fn same_channel(&self, other: &Self) -> bool {
+            Arc::ptr_eq(&self.0, &other.0)
+        }
+    }
+
+    impl<T> Receiver<T> {
+        pub fn recv(&self) -> Result<T, RecvError> {
+            let id = self.0.id;
+            let mut g = self.0.m.lock().unwrap();
+            let mut blocked = false;
+            loop {
+                if let Some(v) = g.q.pop_front() {
+                    let len = g.q.len();
+                    note_len(id, len);
+                    if blocked {
+                        set_state(ThreadState::Running);
+                    }
+                    record(op::RECV, id, len);
+                    self.0.cv.notify_all();
+                    return Ok(v);
+                }
+                if g.senders == 0 {
+                    drop(g);
+                    if blocked {
+                        set_state(ThreadState::Running);
+                    }
+                    record(op::RECV_DISC, id, 0);
+                    return Err(RecvError);
+                }
+                if !blocked {
+                    blocked = true;
+                    note_block(id, false);
+                    set_state(ThreadState::BlockedRecv(id));
+                    record(op::RECV_BLOCK, id, 0);
+                }
+                g = self.0.cv.wait(g).unwrap();
+            }
+        }
+
+        pub fn try_recv(&self) -> Result<T, TryRecvError> {
+            let id = self.0.id;
+            let mut g = self.0.m.lock().unwrap();
+            if let Some(v) = g.q.pop_front() {
+                let len = g.q.len();
+                note_len(id, len);
+                record(op::RECV, id, len);
+                self.0.cv.notify_all();
+                Ok(v)
+            } else if g.senders == 0 {
+                Err(TryRecvError::Disconnected)
+            } else {
+                record(op::TRY_RECV_EMPTY, id, 0);
+                Err(TryRecvError::Empty)
+            }
+        }
+
+        pub fn iter(&self) -> Iter<'_, T> {
+            Iter { receiver: self }
+        }
+        pub fn try_iter(&self) -> TryIter<'_, T> {
+            TryIter { receiver: self }
+        }
+        pub fn len(&self) -> usize {
+            self.0.len()
+        }
+        pub fn is_empty(&self) -> bool {
+            self.0.len() == 0
+        }
+        pub fn is_full(&self) -> bool {
+            self.0.is_full()
+        }
+        pub fn capacity(&self) -> Option<usize> {
+            self.0.capacity()
+        }
+        pub fn same_channel(&self, other: &Self) -> bool {
+            Arc::ptr_eq(&self.0, &other.0)
+        }
+    }
+
+    pub struct Iter<'a, T> {
+        receiver: &'a Receiver<T>,
+    }
+    impl<T> Iterator for Iter<'_, T> {
+        type Item = T;
+        fn next(&mut self) -> Option<T> {
+            self.receiver.recv().ok()
+        }
+    }
+    pub struct TryIter<'a, T> {
+        receiver: &'a Receiver<T>,
+    }
+    impl<T> Iterator for TryIter<'_, T> {
+        type Item = T;
+        fn next(&mut self) -> Option<T> {
+            self.receiver.try_recv().ok()
+        }
+    }
+    pub struct IntoIter<T> {
+        receiver: Receiver<T>,
+    }
+    impl<T> Iterator for IntoIter<T> {
+        type Item = T;
+        fn next(&mut self) -> Option<T> {
+            self.receiver.recv().ok()
+        }
+    }
+    impl<T> IntoIterator for Receiver<T> {
+        type Item = T;
+        type IntoIter = IntoIter<T>;
+        fn into_iter(self) -> IntoIter<T> {
+            IntoIter { receiver: self }
+        }
+    }
+    impl<'a, T> IntoIterator for &'a Receiver<T> {
+        type Item = T;
+        type IntoIter = Iter<'a, T>;
+        fn into_iter(self) -> Iter<'a, T> {
+            self.iter()
+        }
+    }
+
+    impl<T> Clone for Sender<T> {
+        fn clone(&self) -> Self {
+            self.0.m.lock().unwrap().senders += 1;
+            Self(Arc::clone(&self.0))
+        }
+    }
+    impl<T> Clone for Receiver<T> {
+        fn clone(&self) -> Self {
+            self.0.m.lock().unwrap().receivers += 1;
+            Self(Arc::clone(&self.0))
+        }
+    }
+    impl<T> Drop for Sender<T> {
+        fn drop(&mut self) {
+            let mut g = self.0.m.lock().unwrap();
+            g.senders -= 1;
+            if g.senders == 0 {
+                self.0.cv.notify_all();
+            }
+        }
+    }
+    impl<T> Drop for Receiver<T> {
+        fn drop(&mut self) {
+            let mut g = self.0.m.lock().unwrap();
+            g.receivers -= 1;
+            if g.receivers == 0 {
+                // crossbeam discards buffered messages when the last
+                // receiver goes away.
+                let pending: Vec<T> = g.q.drain(..).collect();
+                self.0.cv.notify_all();
+                drop(g);
+                drop(pending);
+            }
+        }
+    }
+    impl<T> fmt::Debug for Sender<T> {
+        fn fmt(&self, f: &mut fmt::Formatter<'_>) -> fmt::Result {
+            f.pad("Sender { .. }")
+        }
+    }
+    impl<T> fmt::Debug for Receiver<T> {
+        fn fmt(&self, f: &mut fmt::Formatter<'_>) -> fmt::Result {
+            f.pad("Receiver { .. }")
+        }
+    }
+}
